@@ -327,9 +327,12 @@ Feature: Steps Usage Formatter
           Feature: With undefined steps
             Scenario: Same undefined step used twice
               Given a step is undefined ... undefined
+              And a step is undefined ... undefined
+              Then a step passes ... untested
 
             Scenario: Same undefined step used again
               Given a step passes ... untested
+              And a step is undefined ... undefined
           """
 
     @use_outline
